@@ -109,6 +109,13 @@ func locksHandler(args []string) (string, []string) {
 		return stressPairs(&ps), ps.out()
 	case len(args) >= 1 && args[0] == "racepairs":
 		return racePairs(), nil
+	case len(args) == 3 && args[0] == "linhist":
+		n, e1 := strconv.Atoi(args[1])
+		seed, e2 := strconv.ParseInt(args[2], 10, 64)
+		if e1 != nil || e2 != nil {
+			return "bad-request", nil
+		}
+		return linHistories(&ps, n, seed), ps.out()
 	case len(args) == 3 && args[0] == "racefocus":
 		return raceFocus(args[1], args[2]), nil
 	}
